@@ -27,8 +27,8 @@ from gen.models import ModelGen
 
 META = {
     "technique": "hand-written executable Lean model of the per-actuator computations of mj_fwdActuation (control clamp and bad-control zeroing, act_dot, SISO gain/bias force law, disabled groups, tendon total-force limit, forcerange clamp, sparse moment-transpose product, actuator-routed gravcomp and joint actfrcrange clamp) over the law-free number class MjNum, built on c2lean-generated kernels (mju_clip, mju_max, mju_isBad, the five muscle kernels; regenerated and validated bitwise each run); documented formulas transcribed independently from doc/ into Spec/Muscle.lean; Lean 4 proofs over the reals (case splits on the spline knots, field_simp/ring, linarith, list induction for the sparse product); bitwise stage-by-stage differential of the Float instance against act_dot / actuator_force / qfrc_actuator of the real mj_forward on generated models (joint, tendon and site transmissions); independent property oracle in Python and on the real kernels",
-    "text": "Proved over the reals for the model (all inputs): a limited control, clamped, lies in ctrlrange and every entry of the control vector the forces use is that clamped control or 0 when some control was bad; mj_nextActivation keeps a limited activation in actrange (DC motors exempt, as coded); after the forcerange clamp the force lies in forcerange, after the joint clamp qfrc_actuator lies in actfrcrange, after the tendon rescaling the total force of the actuators on a tendon lies in its actfrcrange; fixed/affine gain with none/affine bias give p = a(w or u) + b0 + b1 l + b2 ldot; integrator and filter act_dot are the documented ones; the generated muscle kernels equal the documented scaled length/velocity, F0, F_V, the main bump of F_L (knots included) and the Millard activation dynamics (act in [0,1], hard switching); an actuator in a disabled group yields zero force through all later stages when its forcerange contains 0; the sparse transpose product as coded equals the dense moment' * force. Tied to /repo on every run by translation (kernels) and the bitwise stage-by-stage differential against the real engine.",
-    "note": "Stated over the reals (rounding outside the proofs; the Float instance is compared bitwise). Not modelled (filtered out of the differential / not generated): delayed controls, actearly, servo setpoint wrapping on ball joints / rotational sites, PID / DC-motor / SO3 actuators, plugins, callbacks, sleeping. Transmission geometry (actuator_length, actuator_moment of joint / tendon / site transmissions; slider-crank and body transmissions are not generated) is oracle-only (finite differences), as planned in DESIGN.md. The muscle theorems need non-degenerate parameters (every mjMAX(mjMINVAL, .) guard inactive; stated as hypotheses). FINDINGS: (1) documentation vs code: XMLreference documents fpmax as the passive force at lmax and doc/_static/FLV.m gives F_P(lmax) = fpmax, the code (C, MJX and Warp alike) gives 1.5 fpmax; FLV.m adds a second bump 0.15*bump(L, lmin, (lmin+0.95)/2, 0.95) to F_L that the code does not have (theorems muscleBias_differs_from_doc, muscleGainLength_differs_from_FLVm; oracle key c27:muscle-passive-force-at-lmax-differs-from-doc); (2) the forcerange clamp is applied to actuators of disabled groups too, so a disabled actuator whose forcerange excludes 0 outputs the nearest bound instead of zero (theorem disabled_group_force_when_range_excludes_zero; oracle key c27:disabled-actuator-nonzero-force).",
+    "text": "Proved over the reals for the model (all inputs): a limited control, clamped, lies in ctrlrange and every entry of the control vector the forces use is that clamped control or 0 when some control was bad; mj_nextActivation keeps a limited activation in actrange (DC motors exempt, as coded); after the forcerange clamp the force lies in forcerange, after the joint clamp qfrc_actuator lies in actfrcrange, after the tendon rescaling the total force of the actuators on a tendon lies in its actfrcrange; fixed/affine gain with none/affine bias give p = a(w or u) + b0 + b1 l + b2 ldot; integrator and filter act_dot are the documented ones; the generated muscle kernels equal the documented scaled length/velocity, F0, F_V, the main bump of F_L (knots included) and the Millard activation dynamics (act in [0,1], hard switching); an actuator in a disabled group yields zero force through all later stages for every forcerange (the clamp loop skips disabled actuators); the sparse transpose product as coded equals the dense moment' * force. Tied to /repo on every run by translation (kernels) and the bitwise stage-by-stage differential against the real engine.",
+    "note": "Stated over the reals (rounding outside the proofs; the Float instance is compared bitwise). Not modelled (filtered out of the differential / not generated): delayed controls, actearly, servo setpoint wrapping on ball joints / rotational sites, PID / DC-motor / SO3 actuators, plugins, callbacks, sleeping. Transmission geometry (actuator_length, actuator_moment of joint / tendon / site transmissions; slider-crank and body transmissions are not generated) is oracle-only (finite differences), as planned in DESIGN.md. The muscle theorems need non-degenerate parameters (every mjMAX(mjMINVAL, .) guard inactive; stated as hypotheses). FINDINGS: (1) documentation vs code: XMLreference documents fpmax as the passive force at lmax and doc/_static/FLV.m gives F_P(lmax) = fpmax, the code (C, MJX and Warp alike) gives 1.5 fpmax; FLV.m adds a second bump 0.15*bump(L, lmin, (lmin+0.95)/2, 0.95) to F_L that the code does not have (theorems muscleBias_differs_from_doc, muscleGainLength_differs_from_FLVm; oracle key c27:muscle-passive-force-at-lmax-differs-from-doc); (2) FIXED in /repo (ea3125434): the forcerange clamp used to be applied to actuators of disabled groups too, so a disabled actuator whose forcerange excluded 0 output the nearest bound instead of zero; model and theorem disabled_group_zero_force now follow the fixed code (zero force for every forcerange), the oracle key c27:disabled-actuator-nonzero-force stays and a directed regression input (group 0 disabled, forcerange [1, 2]) is evaluated on every run.",
 }
 
 P = "MjProof.C27."
@@ -36,7 +36,7 @@ THEOREMS = [P + t for t in (
     "ctrl_clamped_in_range", "ctrl_unlimited", "ctrlStage_entry", "act_in_actrange", "actdot_integrator", "actdot_filter",
     "force_in_forcerange", "force_clamp_noop", "jointforce_in_range", "tendon_total_in_range",
     "fixed_affine_eq_spec", "fixed_none_eq_spec", "affine_affine_eq_spec",
-    "actuatorDisabled_iff", "disabled_group_zero_force", "disabled_group_force_when_range_excludes_zero",
+    "force_in_forcerange_enabled", "actuatorDisabled_iff", "disabled_group_zero_force", "clampStage_enabled",
     "muscle_scaling", "muscleGainLength_eq_bump", "muscleGain_eq_spec", "muscleDynamics_eq_spec",
     "muscleBias_at_lmax", "muscleBias_differs_from_doc", "muscleGainLength_differs_from_FLVm",
     "qfrc_actuator_eq_momentT_force",
@@ -294,7 +294,7 @@ def lean_differential(ctx, drv, s, stats, mism, ident):
         stats["tendon_scaling_models"] += 1
     # E: forcerange clamp
     frb = s.bits("actuator_forcerange")
-    linesE = ["fclamp %d %s %s %s" % (1 if s.forcelimited[i] else 0, f1[i], frb[2 * i], frb[2 * i + 1]) for i in range(s.nact)]
+    linesE = ["fclamp %d %d %d %s %s %s" % (1 if s.forcelimited[i] else 0, s.group[i], s.disact, f1[i], frb[2 * i], frb[2 * i + 1]) for i in range(s.nact)]
     outE = call(linesE)
     efb = s.bits("actuator_force")
     for i in range(s.nact):
@@ -355,7 +355,7 @@ def oracle(s, fail, rp, stats, extra):
         o = s.outadr[i]
         f = s.force[o]
         # O1 forcerange
-        if s.forcelimited[i] and s.biastype[i] != E("mjBIAS_DCMOTOR") and s.gaintype[i] != E("mjGAIN_SO3"):
+        if s.forcelimited[i] and not s.disabled(i) and s.biastype[i] != E("mjBIAS_DCMOTOR") and s.gaintype[i] != E("mjGAIN_SO3"):
             lo, hi = s.forcerange[2 * i], s.forcerange[2 * i + 1]
             stats["forcerange_checked"] += 1
             if not (lo <= f <= hi):
@@ -389,12 +389,12 @@ def oracle(s, fail, rp, stats, extra):
                         elif T != 0 and T > hi:
                             raw[i] *= hi / T
             for i in range(s.nact):
-                e = clip(raw[i], s.forcerange[2 * i], s.forcerange[2 * i + 1]) if s.forcelimited[i] else raw[i]
+                e = clip(raw[i], s.forcerange[2 * i], s.forcerange[2 * i + 1]) if (s.forcelimited[i] and not s.disabled(i)) else raw[i]
                 f = s.force[s.outadr[i]]
                 sc = abs(e) + abs(f) + 1e-9
                 stats["affine_law_checked"] += 1
                 stats["max_dev_force"] = max(stats["max_dev_force"], abs(e - f) / sc)
-                if abs(e - f) > RTOL * sc and not s.disabled(i):
+                if abs(e - f) > RTOL * sc:
                     fail("c27:affine-law", "actuator %d: actuator_force = %r, documented law p = a*input + b0 + b1*l + b2*ldot with limits gives %r" % (i, f, e),
                          dict(rp, actuator=i))
                     return
@@ -566,6 +566,23 @@ def run_models(ctx, exe, drv, nmodels):
     return stats, mism
 
 
+def disabled_regression(ctx, exe):
+    """directed regression input of the fixed defect c27:disabled-actuator-nonzero-force: group 0 disabled, forcerange [1, 2]"""
+    desc = ["option disableactuator 1", "body 1 0", "name 1 b", "set 1 pos 0 0 1", "joint 2 1", "name 2 j", "set 2 type %d" % JHINGE,
+            "geom 3 1", "set 3 type %d" % E("mjGEOM_SPHERE"), "set 3 size 0.1", "actuator 4", "name 4 a", "set 4 trntype %d" % TRN_JOINT,
+            "set 4 target j", "set 4 forcelimited %d" % E("mjLIMITED_TRUE"), "set 4 forcerange 1 2", "set 4 group 0", "end"]
+    cmds = ["data 0", "set 0 ctrl 0.3", "forward 0", "num 0 actuator_force", "num 0 qfrc_actuator"]
+    inp = "model\n" + "\n".join(desc) + "\n" + "\n".join(cmds) + "\n"
+    r = subprocess.run([exe], input=inp, capture_output=True, text=True, timeout=120)
+    out = r.stdout.split("\n")
+    ok = len(out) >= 6 and out[0].startswith("ok") and out[4].strip() == "1: 0" and out[5].strip() == "1: 0"
+    if not ok:
+        ctx.oracle_failure("c27:disabled-actuator-nonzero-force",
+                           "regression input: actuator in disabled group 0 with forcerange [1, 2]: actuator_force / qfrc_actuator = %r (expected 0)" % (out[4:6],),
+                           {"model": "\n".join(desc), "commands": cmds, "how": "feed `model` + description + commands to harness/c/engine_repl.c"})
+    return {"actuator_force": out[4] if len(out) > 4 else None, "qfrc_actuator": out[5] if len(out) > 5 else None, "ok": ok}
+
+
 # ------------------------------------------------------------------------------------------ muscle anchors on the real kernels
 def muscle_anchor_oracle(ctx, khar, nsets):
     """documented anchor points of the muscle curves, evaluated on the REAL kernels (generic kernel harness)"""
@@ -659,6 +676,7 @@ def run(ctx):
                    % (stats["bitwise_cases"], stats["models_compared"]), "correspondence", ok, json.dumps(mism[:4])[:3000])
         ctx.disagreements += [dict(m, stream="actuation") for m in mism[:20]]
         ctx.extra["actuation_oracle"] = stats
+        ctx.extra["disabled_regression_input"] = disabled_regression(ctx, exe)
         lap("engine_differential_and_oracle")
         ctx.extra["max_float_deviation"] = {"force_rel": stats["max_dev_force"], "qfrc_rel": stats["max_dev_qfrc"],
                                             "moment_fd_rel": stats["max_dev_moment_fd"], "tolerances": {"law": RTOL, "moment_fd": 1e-5}}
